@@ -234,7 +234,7 @@ pub fn run<T: Fam>(rep: &mut Report, rng: &mut Rng, tb: &Tables) {
 pub fn sets(ctx: &Ctx) -> Vec<CaseSet> {
     let fam = family();
     let n = fam.len() as u64;
-    let per = ctx.size(10_000, 300_000);
+    let per = ctx.size(20_000, 900_000);
     let tb = Arc::new(Tables::new());
     vec![CaseSet::new(
         "arbitrary-and-near-miss-values-x-type-family",
